@@ -806,6 +806,7 @@ func runC06(c *Ctx) {
 	checkBufferReinitialisers(c, "R10")
 	checkAttrBlockFollowsItsFlags(c, "R11")
 	checkFilexferRequestDispatch(c, "R12")
+	checkPacketStartsAtZero(c, "R13")
 
 	// ---------- R8 count guards refuse only what cannot fit ----------
 	checkCountGuards(c, "R8")
@@ -1740,4 +1741,83 @@ func checkFilexferRequestDispatch(c *Ctx, rule string) {
 		c.check(got == k, rule, key, p.Pos(fn.Pos()), fmt.Sprintf("%s, whose Type() is %d", typeName(pk.t), got),
 			fmt.Sprintf("for type byte %d newPacketFromType hands out a %s, whose Type() is %d: the body is decoded with another packet's layout", k, typeName(pk.t), got))
 	}
+}
+
+// checkPacketStartsAtZero (C06.R13): filexfer's encoders may be handed a scratch buffer to build the packet in.  The
+// packet starts at offset 0 of what they return: wherever the four bytes of the length prefix are reserved
+// (append(x, four zero bytes)), x is provably empty — b[:0], a fresh make(…, 0, n) — so that stale contents of the
+// scratch buffer do not end up in front of the packet (length, type and id would be read from them).
+func checkPacketStartsAtZero(c *Ctx, rule string) {
+	p := c.P
+	w := newZWorld(p)
+	n := 0
+	ord := map[string]int{}
+	for _, fn := range p.ModuleFuncs() {
+		if outermost(fn).Pkg != p.Sshfx {
+			continue
+		}
+		var z *zfn
+		eachInstr(fn, func(in ssa.Instruction) {
+			call, ok := in.(*ssa.Call)
+			if !ok || builtinName(&call.Call) != "append" || len(call.Call.Args) != 2 {
+				return
+			}
+			if !isByteSlice(call.Call.Args[0].Type()) || !isFourZeroBytes(call.Call.Args[1]) {
+				return
+			}
+			if z == nil {
+				z = w.get(fn)
+			}
+			n++
+			k := fnName(fn) + ": length prefix reserved at offset 0"
+			ord[k]++
+			key := k
+			if ord[k] > 1 {
+				key = fmt.Sprintf("%s #%d", k, ord[k])
+			}
+			ok2, _ := z.prove(in, []lin{leq(z.lenOf(call.Call.Args[0], 0), linConst(0), 0)})
+			c.check(ok2, rule, key, p.Pos(in.Pos()), "the slice the prefix is appended to is empty",
+				"the four bytes of the length prefix are appended to a slice that is not provably empty: with a caller-supplied scratch buffer that still has contents the packet is built behind them, and length, type and request id are read from stale bytes")
+		})
+	}
+	c.check(n >= 1, rule, "places that reserve the length prefix", "?", fmt.Sprintf("%d appends of four zero bytes", n), "no place found where filexfer reserves the length prefix of a packet")
+}
+
+// isFourZeroBytes: v is a slice of exactly four zero bytes (make([]byte, 4), or the slice go/ssa builds for the
+// variadic arguments 0, 0, 0, 0).
+func isFourZeroBytes(v ssa.Value) bool {
+	switch x := v.(type) {
+	case *ssa.MakeSlice:
+		k, ok := constInt(x.Len)
+		return ok && k == 4
+	case *ssa.Slice:
+		al, ok := x.X.(*ssa.Alloc)
+		if !ok || x.Low != nil {
+			return false
+		}
+		if x.High != nil {
+			if k, isK := constInt(x.High); !isK || k != 4 {
+				return false
+			}
+		}
+		arr, ok := derefType(al.Type()).Underlying().(*types.Array)
+		if !ok || arr.Len() != 4 {
+			return false
+		}
+		// every store into it is a zero (an element never stored is zero as well)
+		zero := true
+		for _, r := range *al.Referrers() {
+			if ia, ok := r.(*ssa.IndexAddr); ok {
+				for _, rr := range *ia.Referrers() {
+					if st, ok := rr.(*ssa.Store); ok {
+						if k, ok := constInt(st.Val); !ok || k != 0 {
+							zero = false
+						}
+					}
+				}
+			}
+		}
+		return zero
+	}
+	return false
 }
